@@ -157,6 +157,78 @@ pub fn check_partitions(b: &Built, rec: &Recorder, c: &mut Counters, fams: &[Vec
     calls
 }
 
+/// modularity, then one more mutation on the SAME graph object, then modularity again: the second
+/// answer must be Newman's formula on the mutated graph (anything a query leaves behind in the graph
+/// must survive the mutation)
+pub fn check_history(b: &Built, rec: &Recorder, c: &mut Counters) -> u64 {
+    use graphrs::{Edge, EdgeDedupeStrategy, GraphSpecs, Node};
+    let mut calls = 0u64;
+    if b.n == 0 {
+        return 0;
+    }
+    let singles: Vec<usize> = (0..b.n).map(|v| 1usize << v).collect();
+    let whole: Vec<usize> = vec![(1usize << b.n) - 1];
+    for dedupe in [EdgeDedupeStrategy::Error, EdgeDedupeStrategy::KeepLast] {
+        for u in 0..b.n {
+            for v2 in 0..b.n {
+                if u == v2 && !b.kind.loops {
+                    continue;
+                }
+                for w in if b.weighted { vec![1.0, 3.0] } else { vec![f64::NAN] } {
+                    // rebuild the graph (Graph is not Clone), warm it up with queries, mutate, query again
+                    let mut g = G2::new(GraphSpecs { edge_dedupe_strategy: dedupe.clone(), ..b.kind.specs() });
+                    for &i in &b.node_order {
+                        g.add_node(Node::from_name(b.names[i]));
+                    }
+                    for &(a, z, ww) in &b.edges {
+                        let _ = g.add_edge(std::sync::Arc::new(Edge { u: b.names[a], v: b.names[z], weight: ww, attributes: None }));
+                    }
+                    if !b.edges.is_empty() {
+                        let _ = partitions::modularity(&g, &to_sets(b, &singles), b.weighted, None);
+                        let _ = partitions::modularity(&g, &to_sets(b, &whole), false, Some(2.0));
+                    }
+                    let _ = (g.get_degree_for_all_nodes(), g.get_weighted_degree_for_all_nodes(), g.number_of_edges());
+                    if g.add_edge(std::sync::Arc::new(Edge { u: b.names[u], v: b.names[v2], weight: w, attributes: None })).is_err() {
+                        continue;
+                    }
+                    // the abstract content after the mutation, from the graph's own edge list
+                    let edges: Vec<(usize, usize, f64)> = g.get_all_edges().iter().map(|e| (idx(b, e.u), idx(b, e.v), e.weight)).collect();
+                    let b2 = Built { kind: b.kind, n: b.n, names: b.names.clone(), edges, node_order: b.node_order.clone(), g: G2::new(b.kind.specs()), case: b.case.clone(), weighted: b.weighted };
+                    for fam in [&singles, &whole] {
+                        for weighted in if b.weighted { vec![true, false] } else { vec![false] } {
+                            calls += 1;
+                            c.inc("history_evaluations");
+                            let exp = modularity_oracle(&b2, fam, weighted, 1, 1);
+                            let sub = format!("hist:{:?}:{}->{}:w={w}:{fam:?}:weighted={weighted}", dedupe_name(&dedupe), b.names[u], b.names[v2]);
+                            match guarded(|| partitions::modularity(&g, &to_sets(b, fam), weighted, None)) {
+                                Ok(Ok(got)) if close(got, exp, 1e-12) || (got - exp).abs() < 1e-12 => {}
+                                Ok(r) => rec.record(
+                                    Violation::new("modularity_after_mutation", "partitions::modularity", format!("{}|{sub}", b.case), format!("{}\nmodularity was queried, then add_edge({}, {}, {w}) under dedupe {:?}, then modularity({fam:?}, weighted={weighted}) = {:?}; Newman's formula on the mutated graph gives {exp}", b.describe(), b.names[u], b.names[v2], dedupe_name(&dedupe), r.map_err(|e| e.kind)))
+                                        .with_tags(vec!["query_mutate_query".into()]),
+                                ),
+                                Err(pi) => rec.record(Violation::new("no_panic", "partitions::modularity", format!("{}|{sub}", b.case), pi.msg.clone()).with_panic(pi)),
+                            }
+                        }
+                    }
+                }
+            }
+        }
+    }
+    calls
+}
+
+fn dedupe_name(d: &graphrs::EdgeDedupeStrategy) -> &'static str {
+    match d {
+        graphrs::EdgeDedupeStrategy::Error => "Error",
+        graphrs::EdgeDedupeStrategy::KeepFirst => "KeepFirst",
+        graphrs::EdgeDedupeStrategy::KeepLast => "KeepLast",
+    }
+}
+
+fn idx(b: &Built, name: N) -> usize {
+    b.names.iter().position(|x| *x == name).unwrap()
+}
+
 pub fn c12_families(tier: &str) -> Vec<(Family, usize, bool)> {
     // (graph family, max family size, run is_partition)
     let mut v = vec![];
@@ -209,12 +281,22 @@ pub fn run(tier: &str, rec: &Recorder) -> RunOutput {
             for_each_graph(&f, seed, deadline, &stats, |b, c| check_partitions(b, rec, c, &fams, true));
         }
     }
+    // query -> mutate -> query histories on every small graph
+    for k in kinds_all() {
+        for (n, wa) in [(2usize, "w12"), (3, "u")] {
+            if n == 3 && k.multi && k.loops {
+                continue;
+            }
+            let f = fam(k, n, wa, &ORD_ONE);
+            for_each_graph(&f, seed, deadline, &stats, |b, c| check_history(b, rec, c));
+        }
+    }
     fill_e2_coverage(&mut out, &stats);
     out.set("set_family_enumeration", serde_json::Value::Array(fam_counts));
     out.set("traces_validated_against_impl", out.get("transitions"));
     out.set("distinct_nontrivial", out.get("true_partition_evaluations"));
     out.set("rule", "every labelled graph of each family (all kinds, n<=3; n=4 in the thorough tier) x every multiset of at most k subsets of (nodes + one foreign name), including the empty set and repeated sets; is_partition compared with (pairwise disjoint, only graph nodes, covers all nodes); modularity must be Err(NotAPartition) for every non-partition and equal Newman's formula (exact rationals; parallel edges individually, a loop once in L_c and twice in the degree) for every true partition x weighted x resolution in {0.5,1,2}. distinct_nontrivial = modularity evaluations on true partitions");
-    for k in ["true_partition_evaluations", "families_overlap_and_omission"] {
+    for k in ["true_partition_evaluations", "families_overlap_and_omission", "history_evaluations"] {
         out.require_nonzero(k);
     }
     out.assumptions = vec!["weights {1,2}; graphs with at least one edge for modularity; tolerance 1e-12".into()];
